@@ -3,22 +3,22 @@
 // Three obligations, all decided by bounded-exhaustive enumeration on the real
 // afm.Write / afm.Read:
 //
-//  (1) write-read: metrics value -> library Write -> library Read; everything
-//      must come back (each glyph's width, bounding box, ligatures, the code of
-//      each glyph, kerning pairs in order, all global fields incl. Version and
-//      Notice).
-//  (2) indep-read: the same values laid out by the independent writer
-//      verif/model/afmcodec under layout choices (field order inside a C line,
-//      tabs / several spaces, CRLF, trailing blanks, comment lines, unknown
-//      keys and fields, optional sections, order of the global keys, omitted
-//      zero-valued keys, order of the glyph lines, missing final newline)
-//      -> library Read; the same comparison.
-//  (3) closure: every text of (1) and (2) that the reader accepts, including
-//      texts with fractional / oddly spelled numbers and irregular lines from
-//      (2): m1 = Read(text); m2 = Read(Write(m1)); m3 = Read(Write(m2)).
-//      m1 -> m2: names and text fields equal, every number either unchanged or
-//      (if it was not integral) replaced by an integral value less than 1
-//      away; m3 must equal m2 exactly.
+//	(1) write-read: metrics value -> library Write -> library Read; everything
+//	    must come back (each glyph's width, bounding box, ligatures, the code of
+//	    each glyph, kerning pairs in order, all global fields incl. Version and
+//	    Notice).
+//	(2) indep-read: the same values laid out by the independent writer
+//	    verif/model/afmcodec under layout choices (field order inside a C line,
+//	    tabs / several spaces, CRLF, trailing blanks, comment lines, unknown
+//	    keys and fields, optional sections, order of the global keys, omitted
+//	    zero-valued keys, order of the glyph lines, missing final newline)
+//	    -> library Read; the same comparison.
+//	(3) closure: every text of (1) and (2) that the reader accepts, including
+//	    texts with fractional / oddly spelled numbers and irregular lines from
+//	    (2): m1 = Read(text); m2 = Read(Write(m1)); m3 = Read(Write(m2)).
+//	    m1 -> m2: names and text fields equal, every number either unchanged or
+//	    (if it was not integral) replaced by an integral value less than 1
+//	    away; m3 must equal m2 exactly.
 //
 // Enumeration: an item is a *shape* (glyph set, injective partial encoding,
 // ligature pattern, kerning pattern); inside an item every value field (text
@@ -26,34 +26,39 @@
 // alternative 0 is a typical value and whose other alternatives run through
 // the field's whole pool; a family explores all executions with at most
 // MaxDev fields/dimensions away from the base (1 = every pool value of every
-// field once, 2 = all pairs of fields, 3 = all triples).
+// field once, 2 = all pairs of fields, 3 = all triples).  In the families with
+// 2 or 3 deviations every shape is cut into one item per position of the first
+// deviating point (type dev below) so that the work spreads over the worker
+// processes; the union of these items is exactly the space just described.
+// In the independent-writer families the code of the first encoded glyph is a
+// further point (as given, 0, 255).
 //
 // Preconditions on generated values ("integral and in range", "single
 // tokens") and tolerances — all the oracle is looser than plain equality:
-//   * widths and kerning adjustments are integers in [-32768, 32767]: the
+//   - widths and kerning adjustments are integers in [-32768, 32767]: the
 //     reader stores WX through funit.Int16 and KernPair.Adjust is an Int16, so
 //     nothing else is representable;
-//   * bounding-box coordinates and the numeric global fields are integers
+//   - bounding-box coordinates and the numeric global fields are integers
 //     with |x| <= 2^32 (the writer converts box coordinates with int(), so
 //     "in range" is taken as "well inside a 64-bit integer"); in (1) and in
 //     the identity comparison of (2) no fractional value is used;
-//   * FontName, glyph names, ligature names and kerning names are single
+//   - FontName, glyph names, ligature names and kerning names are single
 //     tokens without ';'; FullName, Version and Notice are words separated by
 //     single blanks without leading or trailing blanks (a line-oriented
 //     key/value format cannot keep other spacing); FontName is never empty;
-//   * .notdef is never given a code: in an encoding vector ".notdef" means
+//   - .notdef is never given a code: in an encoding vector ".notdef" means
 //     "no glyph", so such an assignment is not observable; an encoding never
 //     names a glyph that is not in the glyph map (an AFM file has no place to
 //     store such a name); encodings are compared in the canonical 256-entry
 //     form in which unassigned codes hold ".notdef" (a nil or short vector
 //     equals the same vector padded with ".notdef");
-//   * ligatures are compared as maps (order-insensitive: the writer's order of
+//   - ligatures are compared as maps (order-insensitive: the writer's order of
 //     L fields is Go map order, which is C17's subject); a nil and an empty
 //     ligature map are the same;
-//   * closure: "rounding" accepts either integral neighbour (floor, ceil or
+//   - closure: "rounding" accepts either integral neighbour (floor, ceil or
 //     nearest), and an unchanged value is always accepted; NaN and infinities
 //     are never generated;
-//   * layout choices are restricted to what the AFM specification allows: the
+//   - layout choices are restricted to what the AFM specification allows: the
 //     keyword starts the line (no indentation), no blank lines, keys and
 //     counts present where the specification requires them, comment lines
 //     contain no semicolon.  Irregular lines (duplicate glyph line, two glyphs
@@ -303,9 +308,40 @@ func bPool(i, k int) []afmcodec.Num {
 	return ints(base, 0, 1, -1, -250, 32767, -32768, 100000, -2147483649)
 }
 
-// pick is one Deviate point over a pool; with exotic the closure-only
+// dev routes every deviation point of a body.  With first < 0 it is plain
+// mc.Ctx.Deviate.  With first >= 0 the item is the slice of the space in
+// which point number `first` is the FIRST one that deviates: earlier points
+// take their base value, point `first` takes every non-base value (a free
+// choice, not counted), later points are ordinary deviation points.  With
+// first == number of points nothing deviates.  The slices first = 0..P
+// partition the executions with <= MaxDev+1 deviations; this only serves to
+// turn one big item into many small ones for the worker pool.
+type dev struct {
+	c     *mc.Ctx
+	first int
+	idx   int
+	void  bool // the first deviating point has no alternative: empty slice
+}
+
+func (d *dev) Deviate(n int) int {
+	p := d.idx
+	d.idx++
+	switch {
+	case d.first < 0 || p > d.first:
+		return d.c.Deviate(n)
+	case p < d.first:
+		return 0
+	}
+	if n <= 1 {
+		d.void = true
+		return 0
+	}
+	return 1 + d.c.Choose(n-1)
+}
+
+// pick is one deviation point over a pool; with exotic the closure-only
 // spellings are appended to the pool.
-func pick(c *mc.Ctx, pool []afmcodec.Num, exotic bool, extra ...[]afmcodec.Num) afmcodec.Num {
+func pick(c *dev, pool []afmcodec.Num, exotic bool, extra ...[]afmcodec.Num) afmcodec.Num {
 	n := len(pool)
 	if exotic {
 		for _, e := range extra {
@@ -327,7 +363,7 @@ func pick(c *mc.Ctx, pool []afmcodec.Num, exotic bool, extra ...[]afmcodec.Num) 
 }
 
 // buildModel decides every value field of the shape.
-func buildModel(c *mc.Ctx, sh shape, exotic bool) *afmcodec.Model {
+func buildModel(c *dev, sh shape, exotic bool) *afmcodec.Model {
 	m := &afmcodec.Model{}
 	m.FontName = fontNames[c.Deviate(len(fontNames))]
 	m.FullName = fullNames[c.Deviate(len(fullNames))]
@@ -520,7 +556,7 @@ func content(m *afm.Metrics) (outcome string, nontrivial bool) {
 			enc++
 		}
 	}
-	return fmt.Sprintf("glyphs=%d encoded=%d ligs=%v kerns=%d", len(m.Glyphs), enc, ligs > 0, len(m.Kern)),
+	return fmt.Sprintf("glyphs=%d encoded=%v ligs=%v kerns=%v", len(m.Glyphs), enc > 0, ligs > 0, len(m.Kern) > 0),
 		len(m.Glyphs) > 0 && (ligs > 0 || enc > 0 || len(m.Kern) > 0)
 }
 
@@ -542,11 +578,22 @@ func failWith(fs []finding, render string) mc.Verdict {
 
 // ---------------------------------------------------------------- bodies
 
+// entry is one item: a shape and, for partitioned families, the number of
+// the first deviating point (-1 = not partitioned).
+type entry struct {
+	sh    shape
+	first int
+}
+
 // libBody: obligation (1) and the closure of the library's own output.
-func libBody(list []shape) func(c *mc.Ctx, item int) mc.Verdict {
+func libBody(list []entry) func(c *mc.Ctx, item int) mc.Verdict {
 	return func(c *mc.Ctx, item int) mc.Verdict {
-		sh := list[item]
-		model := buildModel(c, sh, false)
+		sh := list[item].sh
+		d := &dev{c: c, first: list[item].first}
+		model := buildModel(d, sh, false)
+		if d.void {
+			return mc.Pass("empty slice", false)
+		}
 		m0 := toMetrics(model, sh)
 		render := func() string { return "shape " + sh.String() + " | " + describeModel(model) }
 		text, err := libWrite(c, m0)
@@ -575,22 +622,33 @@ func libBody(list []shape) func(c *mc.Ctx, item int) mc.Verdict {
 	}
 }
 
-// indepBody: obligation (2) and the closure of every accepted text.
-func indepBody(list []shape) func(c *mc.Ctx, item int) mc.Verdict {
-	return func(c *mc.Ctx, item int) mc.Verdict {
-		sh := list[item]
-		model := buildModel(c, sh, true)
-		// the code of the first encoded glyph also runs through the boundary
-		// values of the code range (the other codes of these shapes are 65..68)
-		for i := range model.Glyphs {
-			if model.Glyphs[i].Code >= 0 {
-				model.Glyphs[i].Code = []int{model.Glyphs[i].Code, 0, 255}[c.Deviate(3)]
-				break
-			}
+// indepModel decides the model and the layout of one execution of the
+// independent-writer families.
+func indepModel(d *dev, sh shape) (*afmcodec.Model, afmcodec.Layout) {
+	model := buildModel(d, sh, true)
+	// the code of the first encoded glyph also runs through the boundary
+	// values of the code range (the other codes of these shapes are 65..68)
+	for i := range model.Glyphs {
+		if model.Glyphs[i].Code >= 0 {
+			model.Glyphs[i].Code = []int{model.Glyphs[i].Code, 0, 255}[d.Deviate(3)]
+			break
 		}
-		var lay afmcodec.Layout
-		for d := range lay {
-			lay[d] = c.Deviate(afmcodec.Dims[d].N)
+	}
+	var lay afmcodec.Layout
+	for k := range lay {
+		lay[k] = d.Deviate(afmcodec.Dims[k].N)
+	}
+	return model, lay
+}
+
+// indepBody: obligation (2) and the closure of every accepted text.
+func indepBody(list []entry) func(c *mc.Ctx, item int) mc.Verdict {
+	return func(c *mc.Ctx, item int) mc.Verdict {
+		sh := list[item].sh
+		d := &dev{c: c, first: list[item].first}
+		model, lay := indepModel(d, sh)
+		if d.void {
+			return mc.Pass("empty slice", false)
 		}
 		text := afmcodec.Write(model, lay)
 		render := func() string {
@@ -626,19 +684,49 @@ func indepBody(list []shape) func(c *mc.Ctx, item int) mc.Verdict {
 	}
 }
 
+// entries turns shapes into items.  For dev >= 2 every shape is split into
+// the slices "point j deviates first" (see type dev); the family then runs
+// with MaxDev = dev-1 for the remaining points.
+func entries(list []shape, devs int, indep bool) (out []entry, maxDev int) {
+	if devs < 2 {
+		for _, sh := range list {
+			out = append(out, entry{sh, -1})
+		}
+		return out, devs
+	}
+	for _, sh := range list {
+		d := &dev{c: &mc.Ctx{}, first: -1}
+		if indep {
+			indepModel(d, sh)
+		} else {
+			buildModel(d, sh, false)
+		}
+		for j := 0; j <= d.idx; j++ {
+			out = append(out, entry{sh, j})
+		}
+	}
+	return out, devs - 1
+}
+
 // ---------------------------------------------------------------- families
 
-func family(name string, list []shape, dev int, body func([]shape) func(*mc.Ctx, int) mc.Verdict, budget time.Duration, what string) mc.Family {
+func family(name string, list []shape, devs int, body func([]entry) func(*mc.Ctx, int) mc.Verdict, budget time.Duration, what string) mc.Family {
+	indep := strings.HasPrefix(name, "indep")
+	items, maxDev := entries(list, devs, indep)
+	split := ""
+	if devs >= 2 {
+		split = fmt.Sprintf(" (each shape is split into one item per position of the first deviating point, whose alternatives are free choices; the engine bound for the remaining points is %d)", maxDev)
+	}
 	return mc.Family{
 		Name:   name,
-		Items:  len(list),
-		MaxDev: dev,
-		Body:   body(list),
+		Items:  len(items),
+		MaxDev: maxDev,
+		Body:   body(items),
 		Budget: budget,
-		Rule: fmt.Sprintf("item = one of %d shapes (%s); inside an item every text/number field%s is a Deviate point over its pool, all executions with <= %d points away from the base values are run; "+
+		Rule: fmt.Sprintf("%d shapes (%s); inside a shape every text/number field%s is a deviation point over its pool; all executions with <= %d points away from the base values are run%s; "+
 			"non-trivial = the metrics READ BACK hold at least one glyph and at least one ligature, encoded glyph or kerning pair", len(list), what,
-			map[bool]string{true: " and every one of the 15 layout dimensions of afmcodec", false: ""}[strings.HasPrefix(name, "indep")], dev),
-		Describe: func(i int) string { return list[i].String() },
+			map[bool]string{true: ", the code of the first encoded glyph (as given, 0, 255) and every one of the 15 layout dimensions of afmcodec", false: ""}[indep], devs, split),
+		Describe: func(i int) string { return fmt.Sprintf("%s first-deviation=%d", items[i].sh.String(), items[i].first) },
 		CrashKey: func(i int) string { return "C15:crash:" + name },
 	}
 }
@@ -654,33 +742,50 @@ func coreSets(big bool) [][]string {
 func families(tier string) []mc.Family {
 	all14 := glyphSets(1, 4)
 	if tier == "quick" {
-		b := 40 * time.Second
+		// budgets sum to 45 s
+		b := []time.Duration{18 * time.Second, 8 * time.Second, 7 * time.Second, 12 * time.Second}
 		// ligature x kerning combinations: every pattern of one kind with the
 		// empty pattern of the other, plus three mixed ones
 		wideLib := append(shapes(shapeSpec{sets: all14, codePool: []int{0, 65}, ligPats: seq(numLigPats), kernPats: []int{0}}),
-			shapes(shapeSpec{sets: all14, codePool: []int{0, 65}, ligPats: []int{0, 5}, kernPats: []int{1, 2, 3, 4, 5}})...)
+			shapes(shapeSpec{sets: all14, codePool: []int{0, 65}, ligPats: []int{0}, kernPats: []int{1, 2, 3, 4, 5}})...)
+		wideLib = append(wideLib, shapes(shapeSpec{sets: all14, codePool: []int{0, 65}, ligPats: []int{5}, kernPats: []int{3}})...)
 		deepLib := shapes(shapeSpec{sets: coreSets(false), codePool: []int{65, 66, 67, 68}, encFilter: ascending, ligPats: []int{5}, kernPats: []int{3}})
 		wideIndep := shapes(shapeSpec{sets: all14, codePool: []int{65}, ligPats: []int{0, 5}, kernPats: []int{0, 3}})
 		deepIndep := shapes(shapeSpec{sets: coreSets(false)[:3], codePool: []int{65, 66}, encFilter: ascending, ligPats: []int{5}, kernPats: []int{3}})
 		return []mc.Family{
-			family("lib-write-read/wide", wideLib, 1, libBody, b, "all glyph sets of 1-4 names from {.notdef,A,B,f_i.alt,space} x all injective partial encodings over codes {0,65} incl. nil vector x (7 ligature patterns (0-3 per glyph) without kerning + ligature patterns {none, 0..3 per glyph} x 5 kerning patterns (1-3 pairs, duplicates, absent glyphs))"),
-			family("lib-write-read/pairs", deepLib, 2, libBody, b, "4 core glyph sets x {nothing encoded, nil vector, everything encoded}, ligatures 0..3 per glyph, 3 kerning pairs"),
-			family("indep-read/wide", wideIndep, 1, indepBody, b, "all glyph sets of 1-4 names x encodings with at most one glyph at code 65 x ligature patterns {none, 0..3 per glyph} x kerning {none, 3 pairs}"),
-			family("indep-read/pairs", deepIndep, 2, indepBody, b, "glyph sets {A}, {.notdef,A}, {A,B}; everything encoded ascending, nothing encoded, nil vector; ligatures 0..3 per glyph; 3 kerning pairs"),
+			family("lib-write-read/wide", wideLib, 1, libBody, b[0], "all glyph sets of 1-4 names from {.notdef,A,B,f_i.alt,space} x all injective partial encodings over codes {0,65} incl. nil vector x (7 ligature patterns (0-3 per glyph) without kerning + 5 kerning patterns (1-3 pairs, duplicates, absent glyphs) without ligatures + ligatures 0..3 per glyph with 3 kerning pairs)"),
+			family("lib-write-read/pairs", deepLib, 2, libBody, b[1], "4 core glyph sets x {nothing encoded, nil vector, everything encoded}, ligatures 0..3 per glyph, 3 kerning pairs"),
+			family("indep-read/wide", wideIndep, 1, indepBody, b[2], "all glyph sets of 1-4 names x encodings with at most one glyph at code 65 x ligature patterns {none, 0..3 per glyph} x kerning {none, 3 pairs}"),
+			family("indep-read/pairs", deepIndep, 2, indepBody, b[3], "glyph sets {A}, {.notdef,A}, {A,B}; everything encoded ascending, nothing encoded, nil vector; ligatures 0..3 per glyph; 3 kerning pairs"),
 		}
 	}
-	b := 9 * time.Minute
-	wideLib := shapes(shapeSpec{sets: all14, codePool: []int{0, 65, 255}, ligPats: seq(numLigPats), kernPats: seq(numKernPats), short: true})
-	deepLib := shapes(shapeSpec{sets: all14, codePool: []int{65}, ligPats: []int{0, 3, 5}, kernPats: []int{0, 3, 5}})
-	tripleLib := shapes(shapeSpec{sets: [][]string{{"A"}, {".notdef", "A"}}, codePool: []int{65}, ligPats: []int{2}, kernPats: []int{2}})
-	wideIndep := shapes(shapeSpec{sets: all14, codePool: []int{0, 65}, ligPats: seq(numLigPats), kernPats: seq(numKernPats)})
-	deepIndep := shapes(shapeSpec{sets: coreSets(true), codePool: []int{65, 66, 67, 68}, encFilter: ascending, ligPats: []int{0, 5}, kernPats: []int{0, 3, 5}})
+	// thorough; budgets sum to 590 s
+	b := []time.Duration{90 * time.Second, 110 * time.Second, 80 * time.Second, 80 * time.Second, 130 * time.Second, 100 * time.Second}
+	codes3 := []int{0, 65, 255}
+	wideLib := append(shapes(shapeSpec{sets: all14, codePool: codes3, ligPats: seq(numLigPats), kernPats: []int{0}}),
+		shapes(shapeSpec{sets: all14, codePool: codes3, ligPats: []int{0, 5}, kernPats: []int{1, 2, 3, 4, 5}})...)
+	for _, sh := range shapes(shapeSpec{sets: all14, codePool: codes3, ligPats: []int{0, 5}, kernPats: []int{0, 3}, short: true}) {
+		if sh.encForm == 2 {
+			wideLib = append(wideLib, sh)
+		}
+	}
+	deepLib := append(shapes(shapeSpec{sets: all14, codePool: []int{65, 66, 67, 68}, encFilter: ascending, ligPats: []int{5}, kernPats: []int{3}}),
+		shapes(shapeSpec{sets: coreSets(true), codePool: []int{65, 66, 67, 68}, encFilter: ascending, ligPats: []int{0}, kernPats: []int{0}})...)
+	lastAt65 := func(_ []string, codes []int) bool { return codes[len(codes)-1] == 65 }
+	tripleLib := shapes(shapeSpec{sets: [][]string{{"A"}, {".notdef", "A"}}, codePool: []int{65}, encFilter: lastAt65, ligPats: []int{2}, kernPats: []int{2}})
+	tripleLib = append(tripleLib, shapes(shapeSpec{sets: [][]string{{"A", "B"}}, codePool: []int{65, 66}, encFilter: func(n []string, c []int) bool { return c[0] == 65 && c[1] == 66 }, ligPats: []int{1}, kernPats: []int{1}})...)
+	tripleIndep := shapes(shapeSpec{sets: [][]string{{"A"}}, codePool: []int{65}, encFilter: lastAt65, ligPats: []int{2}, kernPats: []int{1}})
+	wideIndep := append(shapes(shapeSpec{sets: all14, codePool: []int{0, 65}, ligPats: seq(numLigPats), kernPats: []int{0}}),
+		shapes(shapeSpec{sets: all14, codePool: []int{0, 65}, ligPats: []int{0, 5}, kernPats: []int{1, 2, 3, 4, 5}})...)
+	deepIndep := append(shapes(shapeSpec{sets: coreSets(true), codePool: []int{65, 66, 67, 68}, encFilter: ascending, ligPats: []int{5}, kernPats: []int{3}}),
+		shapes(shapeSpec{sets: coreSets(true), codePool: []int{65, 66, 67, 68}, encFilter: ascending, ligPats: []int{0}, kernPats: []int{0}})...)
 	return []mc.Family{
-		family("lib-write-read/wide", wideLib, 1, libBody, b, "all glyph sets of 1-4 names from {.notdef,A,B,f_i.alt,space} x all injective partial encodings over codes {0,65,255} incl. nil and short vectors x 7 ligature patterns x 6 kerning patterns"),
-		family("lib-write-read/pairs", deepLib, 2, libBody, b, "all glyph sets of 1-4 names x encodings with at most one glyph at code 65 x 3 ligature patterns x 3 kerning patterns"),
-		family("lib-write-read/triples", tripleLib, 3, libBody, b, "glyph sets {A}, {.notdef,A}, A encoded or not, 2 ligatures, 2 kerning pairs"),
-		family("indep-read/wide", wideIndep, 1, indepBody, b, "all glyph sets of 1-4 names x all injective partial encodings over codes {0,65} x 7 ligature patterns x 6 kerning patterns"),
-		family("indep-read/pairs", deepIndep, 2, indepBody, b, "8 core glyph sets, everything encoded ascending or nothing encoded, 2 ligature patterns, 3 kerning patterns"),
+		family("lib-write-read/wide", wideLib, 1, libBody, b[0], "all glyph sets of 1-4 names from {.notdef,A,B,f_i.alt,space} x all injective partial encodings over codes {0,65,255} incl. nil vector x (7 ligature patterns without kerning + ligature patterns {none, 0..3 per glyph} x 5 kerning patterns), plus the same encodings as vectors cut after the highest code x ligatures {none, 0..3} x kerning {none, 3 pairs}"),
+		family("lib-write-read/pairs", deepLib, 2, libBody, b[1], "all glyph sets of 1-4 names x {nothing encoded, nil vector, everything encoded ascending from 65} with ligatures 0..3 per glyph and 3 kerning pairs, plus 8 core glyph sets without ligatures and kerning"),
+		family("lib-write-read/triples", tripleLib, 3, libBody, b[2], "glyph sets {A}, {.notdef,A} with A at code 65, 2 ligatures, 2 kerning pairs; {A,B} at codes 65, 66 with 1 ligature and 1 kerning pair"),
+		family("indep-read/wide", wideIndep, 1, indepBody, b[3], "all glyph sets of 1-4 names x all injective partial encodings over codes {0,65} incl. nil vector x (7 ligature patterns without kerning + ligature patterns {none, 0..3 per glyph} x 5 kerning patterns)"),
+		family("indep-read/pairs", deepIndep, 2, indepBody, b[4], "8 core glyph sets x {nothing encoded, nil vector, everything encoded ascending} x {(ligatures 0..3 per glyph, 3 kerning pairs), (no ligatures, no kerning)}"),
+		family("indep-read/triples", tripleIndep, 3, indepBody, b[5], "glyph set {A} at code 65, 2 ligatures, 1 kerning pair"),
 	}
 }
 
